@@ -17,7 +17,7 @@ import re
 from vlib.hostlist import (HL, Cli, WFGen, LIMIT, hx, unhx, parse_probe, parse_spec, same_answer, feat_big,
                            feat_longplain, feat_first_group_complete, feat_d16, gen_malformed, exhaustive, names_field, U64,
                            impl_tokens,
-                           VERIF_CORPUS)
+                           VERIF_CORPUS, pinned_classes, cli_phase)
 
 LEVEL = "proof"
 PROPS = "PdshVerif.Props.C15"
@@ -26,7 +26,9 @@ MANIFEST = dict(
     technique="Lean 4 proof about the executable model of the hostlist parser (for EVERY text: one equation for the "
               "verdict on a range item with strtoul saturation, iff-characterisations of accepted / invalid / "
               "too-many, refinement of the independent item reader, exact acceptance condition of a group, a token "
-              "and the whole call, counter exact and <= 16384 x text length, fuel sufficiency, explicit buffers) "
+              "and the whole call, accepted <=> the independent whole-text reader Spec.classify finds no problem "
+              "and then the hosts are its expansion, counter exact and <= 16384 x text length, fuel sufficiency, "
+              "explicit buffers) "
               "+ differential correspondence of the real "
               "hostlist.c under ASan/UBSan and per-call resource limits against the compiled model + "
               "classification oracle from the property text",
@@ -146,6 +148,9 @@ def run(ctx):
             return
         for s in load_corpus():
             yield (s, "corpus")
+        for s in pinned_classes():
+            dist["pinned-classes"] = dist.get("pinned-classes", 0) + 1
+            yield (s, "pinned")
         wf = WFGen(rng, max_hosts=300)
         for _ in range(3200 if ctx.quick() else 40000):
             yield (gen_malformed(rng, wf, dist), "generated")
@@ -185,7 +190,7 @@ def run(ctx):
         dist["forked"] = hl.nfork
         dist["classes(spec -> impl)"] = dict(sorted(classes.items(), key=lambda kv: -kv[1])[:40])
         if not ctx.replay:
-            cli_check(ctx, hl, dist, cov)
+            cli_phase(ctx, cli_check, ctx, hl, dist, cov)
         else:
             rep = json.load(open(ctx.replay))
             if rep["case"].get("origin") == "cli":
@@ -218,7 +223,14 @@ def cli_check(ctx, hl, dist, cov, only=None, only_q=None):
         return
     wf = WFGen(rng, cli=True, max_hosts=30)
     fixed = [b"a[0-99999999999999999999]", b"a[1-99999]", b"a[2-1]", b"a[1", b"a]", b"a[1x-3]", b"a[1-3],b]",
-             b"a[18446744073709551614-18446744073709551615]", b"a[0-99999999999999999999]x", b"a[1]]", b"x" * 1023]
+             b"a[18446744073709551614-18446744073709551615]", b"a[0-99999999999999999999]x", b"a[1]]", b"x" * 1023,
+             # an unbalanced word NEXT TO a good one (split.c cuts the argument at commas outside brackets, every
+             # comma-word goes through hostlist_push on its own): before, after, between, level going negative
+             b"b,a[1", b"a],b", b"b,a]", b"a[1,b", b"x,a[1]],y", b"a[1-2]b[,c", b"b,a[1]b[", b"a]b[1],c"]
+    # which variant of opt.c is under test: does `-w` go on without a comma-word whose parse failed? (behavioural
+    # probe; F15-CLI-WORD-DROPPED.  A repaired tree refuses the whole argument.)
+    drops = only_q is None and cli.query("b,a[1", timeout=20)[0] == "ok"
+    dist["cli-variant"] = "failed word dropped silently" if drops else "failed word refused"
     nslow = 0
     cases = list(fixed) if only is None else [only]
     if only_q:
@@ -263,7 +275,11 @@ def cli_check(ctx, hl, dist, cov, only=None, only_q=None):
         else:
             mcls = m
         icls = "crash" if cls.startswith("crash") else cls
-        if icls != mcls and not (mcls == "crash" and icls in ("ok", "nohosts")):
+        v0 = parse_spec(sp)
+        unbal = (not v0["ok"]) and "unbalanced" in v0["problems"]
+        if unbal and not drops and icls not in ("ok", "crash", "timeout"):
+            pass    # repaired opt.c: the argument is refused where the model (code as found) drops the word
+        elif icls != mcls and not (mcls == "crash" and icls in ("ok", "nohosts")):
             ctx.disagreement("hl model (cli) vs pdsh -Q", "text %r: pdsh %s model %s" % (s[:200], cls, m[:200]), case)
         if cls.startswith("crash") or cls == "timeout":
             big = feat_big(s)
@@ -278,6 +294,14 @@ def cli_check(ctx, hl, dist, cov, only=None, only_q=None):
             ctx.offender(sig, "pdsh -Q -w TEXT: %s" % cls, case)
             continue
         v = parse_spec(sp)
+        if unbal and cls == "ok":
+            # the text says: unbalanced brackets make the parse fail.  pdsh went on (exit 0, hosts listed).
+            # `:word-dropped` = the mechanism of the code as found (the model, which mirrors it, lists the same):
+            # hostlist_push() of the bad comma-word returns 0 and opt.c does not look at it.
+            ctx.offender("cli-unbalanced-accepted" + (":word-dropped" if mcls == "ok" else ""),
+                         "pdsh -w TEXT with unbalanced brackets exits 0 and lists %d host(s)%s" %
+                         (len(hosts or []), ": the bad comma-word is dropped without a diagnostic" if mcls == "ok" else ""),
+                         case)
         if not v["ok"] and set(v["problems"]) == {"toomany"} and cls != "fatal:toomany":
             ctx.offender("cli-toomany-" + cls + (":bound>=2^64-1" if feat_big(s) else ""),
                          "pdsh -w with a range larger than the limit: %s instead of the 'too many hosts' diagnostic" % cls,
@@ -293,7 +317,7 @@ def cli_check(ctx, hl, dist, cov, only=None, only_q=None):
         for s in wide:
             for attempt in (0, 1):
                 rc, out, err = cli.run(["-q", "-w", s.decode("latin1")], timeout=20)
-                if rc != "timeout":
+                if rc != "timeout" or cli.runaway:
                     break
             cls = cli.diag(rc, err) if rc != 0 else "ok"
             dist["cli-q-wide"] += 1
